@@ -58,15 +58,17 @@ pub struct Probe {
 /// the entraited item of one lattice point and the name of the trait whose visibility is probed
 fn item_of(case: &str, mode: &str, v: Vis, item_vis: &str) -> (String, &'static str) {
     let vs = v.src(case);
-    // an unrelated option rotates through the lattice: it must not influence visibility
+    // an unrelated option (and the exporting alias `entrait_export`) rotates through the lattice: it must not influence visibility
     let n: usize = case[1..].parse().unwrap_or(0);
     let extra = ["", ", unimock = false", ", mock_api = TheMock", ", mockall = false", ", ?Send"][n % 5];
+    // ... and neither must the exporting alias of the macro
+    let mac = ["::entrait::entrait", "::entrait::entrait_export"][(n / 5) % 2];
     let (item, name) = match mode {
-        "fn" => (format!("#[::entrait::entrait({vs}TheTrait{extra})]\n{item_vis}fn the_fn(_deps: &impl Sized) {{}}"), "TheTrait"),
-        "mod" | "mod_path" => (format!("#[::entrait::entrait({vs}TheTrait{extra})]\n{item_vis}mod m {{ pub fn f(_deps: &impl Sized) {{}} }}"), "TheTrait"),
+        "fn" => (format!("#[{mac}({vs}TheTrait{extra})]\n{item_vis}fn the_fn(_deps: &impl Sized) {{}}"), "TheTrait"),
+        "mod" | "mod_path" => (format!("#[{mac}({vs}TheTrait{extra})]\n{item_vis}mod m {{ pub fn f(_deps: &impl Sized) {{}} }}"), "TheTrait"),
         // the delegation-target trait takes the visibility of the original trait, whatever is written before its name
-        "trait_static" => (format!("#[::entrait::entrait({item_vis}TrImpl, delegate_by = DelegateTr{extra})]\n{vs}trait Tr {{ fn m(&self); }}"), "TrImpl"),
-        _ => (format!("#[::entrait::entrait({item_vis}TrImpl, delegate_by = ref{extra})]\n{vs}trait Tr {{ fn m(&self); }}"), "TrImpl"),
+        "trait_static" => (format!("#[{mac}({item_vis}TrImpl, delegate_by = DelegateTr{extra})]\n{vs}trait Tr {{ fn m(&self); }}"), "TrImpl"),
+        _ => (format!("#[{mac}({item_vis}TrImpl, delegate_by = ref{extra})]\n{vs}trait Tr {{ fn m(&self); }}"), "TrImpl"),
     };
     (item, name)
 }
